@@ -1,6 +1,9 @@
 package main
 
 import (
+	"os/exec"
+	"flag"
+	"bytes"
 	"encoding/json"
 	"fmt"
 	"os"
@@ -45,6 +48,10 @@ type Hist13 struct {
 	Engines []EngineSpec `json:"engines"`
 	Ops     []H13Op      `json:"ops"`
 	Sim     simrt.Config `json:"sim"`
+	// Fresh: the pristine evaluations are ALSO computed by a fresh OS process and compared with
+	// this process's: an outcome may not depend on what the process happened to evaluate before
+	// (process-wide memos are the same for history and in-process pristine, so neither sees them)
+	Fresh bool `json:"fresh,omitempty"`
 }
 
 // what one evaluation produced, in every observable the property names
@@ -119,6 +126,16 @@ var c13Extra = []Prog{
 	{"len([1: 1, 1: 2, 2: 3]) + get([1: 1, 1: 2], 1, 0)", "none", false, false},
 	{"[m == m, mi == mi, mo == mo, [m, m] == [m, m]]", "map", false, false},
 	{"[isset(mo, \"u\"), isset(mo, \"zz\"), get(mo, \"v\", o).id]", "struct", false, false},
+	// one Go type, two typings (interface-typed containers holding numbers or strings)
+	{"len(xs) + n", "ifaceA", false, false},
+	{"xs[0]", "ifaceA", false, false},
+	{"xs[0]", "ifaceB", false, false},
+	{"string(params) + string(xs)", "ifaceB", false, false},
+	{"params[\"k\"]", "ifaceA", false, false},
+	{"[in.vals[0], xs[1]]", "ifaceB", false, false},
+	{"string(in)", "ifaceA", false, false},
+	{"get(params, \"zz\", xs[0])", "ifaceB", false, false},
+	{"xs[0] + in.vals[0]", "ifaceA", false, false},
 	// equality of two DIFFERENT values of the environment that have the same shape
 	// (lists of equal length and unequal contents: mo.u.tags / mo.v.tags, and o.tags / ls in map2 / struct2)
 	{"mo[\"u\"].tags == mo[\"v\"].tags", "map", false, false},
@@ -437,6 +454,7 @@ type hist13Result struct {
 	RawEdits  int
 	RawRetypes int
 	Composed   int
+	FreshChecked bool
 	Reentries int
 	GCBefore  int
 	Viol     *Violation
@@ -468,6 +486,13 @@ func runHist13(h *Hist13, x *evalCtx) hist13Result {
 		return t
 	}
 	t1 := table(false)
+	if h.Fresh {
+		res.FreshChecked = true
+		if v := freshProcessCheck(keys, t1); v != nil {
+			res.Viol = v
+			return res
+		}
+	}
 
 	got := make([]obs, len(h.Ops))
 	hostChanged := make([]string, len(h.Ops))
@@ -929,6 +954,9 @@ func genHist13(r *rng) *Hist13 {
 				if p.Generic && r.chance(0.7) {
 					p.Env = genericEnvs[r.intn(len(genericEnvs))] // ... under another typing of its names
 				}
+				if strings.HasPrefix(p.Env, "iface") && r.chance(0.6) {
+					p.Env = map[string]string{"ifaceA": "ifaceB", "ifaceA2": "ifaceB", "ifaceB": "ifaceA"}[p.Env]
+				}
 				if p.User && !h.Engines[e].UserFuns {
 					p = pickProg13(r, false)
 				}
@@ -1026,6 +1054,7 @@ func genHist13(r *rng) *Hist13 {
 			h.Ops[i].GCBefore = true
 		}
 	}
+	h.Fresh = r.chance(0.04)
 	h.Sim = simrt.Config{Seed: r.u64() | 1, ClockSeam: true, ClockBase: 1500000000 + int64(r.intn(400000000)), MaxSteps: 20_000_000}
 	h.Sim.MapMode = []int{simrt.MapShuffle, simrt.MapShuffle, simrt.MapReverse, simrt.MapRotate, simrt.MapSorted}[r.intn(5)]
 	h.Sim.MapParam = 1 + r.intn(5)
@@ -1088,6 +1117,8 @@ func shapeClass(name string) string {
 		return "alt-shape"
 	case "alt2", "alt2struct":
 		return "alt2-shape"
+	case "structR":
+		return "stdR-shape" // same shapes as the standard one, but objects are laid out (and rendered) in another field order
 	}
 	return name
 }
@@ -1232,6 +1263,9 @@ func (c13) Batch(seed uint64, wid, batch, count int, deadline time.Time, emit fu
 		c["fault_raw_env_edited_in_place"] += int64(res.RawEdits)
 		c["fault_raw_type_env_retyped_in_place"] += int64(res.RawRetypes)
 		c["compose_law_checked"] += int64(res.Composed)
+		if res.FreshChecked {
+			c["fresh_process_pristine_checked"]++
+		}
 		c["sim_time_covered_s"] += abs64(res.Sim.ClockEnd - h.Sim.ClockBase)
 		for _, op := range h.Ops {
 			if op.StdoutFail {
@@ -1379,4 +1413,110 @@ func (c13) Candidates(rf *ReplayFile) []*ReplayFile {
 		}
 	}
 	return out
+}
+
+
+// ---------------------------------------------------------------------------
+// fresh-process pristine: the same pristine evaluations, first thing in a new OS process
+
+type pkeyJSON struct {
+	Kind string     `json:"kind"`
+	Spec EngineSpec `json:"spec"`
+	Src  string     `json:"src"`
+	CEnv string     `json:"cenv"`
+	IEnv string     `json:"ienv"`
+}
+
+type obsJSON struct {
+	Class, Value, Text, Calls, Stdout, Debug, Law string
+}
+
+func distinctKeys(keys []pkey) []pkey {
+	seen := map[pkey]bool{}
+	var out []pkey
+	for _, k := range keys {
+		if k.kind != "" && !seen[k] {
+			seen[k] = true
+			out = append(out, k)
+		}
+	}
+	return out
+}
+
+func freshProcessCheck(keys []pkey, t1 map[pkey]obs) *Violation {
+	ks := distinctKeys(keys)
+	if len(ks) == 0 {
+		return nil
+	}
+	in := make([]pkeyJSON, len(ks))
+	for i, k := range ks {
+		in[i] = pkeyJSON{k.kind, k.spec, k.src, k.cenv, k.ienv}
+	}
+	self, err := os.Executable()
+	if err != nil {
+		harnessFatal("fresh-process pristine: %v", err)
+	}
+	f, err := os.CreateTemp("", "verif-pristine-*.json")
+	if err != nil {
+		harnessFatal("fresh-process pristine: %v", err)
+	}
+	path := f.Name()
+	f.Close()
+	defer os.Remove(path)
+	b, _ := json.Marshal(in)
+	cmd := exec.Command(self, "pristine13", "-out", path)
+	cmd.Stdin = bytes.NewReader(b)
+	cmd.Env = os.Environ()
+	var stderr bytes.Buffer
+	cmd.Stderr = &stderr
+	if err := cmd.Run(); err != nil {
+		if sig, ok := classifyCrash(stderr.String()); ok {
+			return &Violation{"process", "c13:fresh-process:" + sig, "the pristine evaluations, run first thing in a fresh process, killed it: " + clip(stderr.String())}
+		}
+		harnessFatal("fresh-process pristine child: %v\n%s", err, clip(stderr.String()))
+	}
+	ob, err := os.ReadFile(path)
+	if err != nil {
+		harnessFatal("fresh-process pristine: %v", err)
+	}
+	var out []obsJSON
+	if err := json.Unmarshal(ob, &out); err != nil || len(out) != len(ks) {
+		harnessFatal("fresh-process pristine: bad child output (%v, %d of %d)", err, len(out), len(ks))
+	}
+	for i, k := range ks {
+		a := t1[k]
+		fo := obs{Class: out[i].Class, Value: out[i].Value, Text: out[i].Text, Calls: out[i].Calls, Stdout: out[i].Stdout, Debug: out[i].Debug}
+		if asp := diffObs(fo, a, false); asp != "" {
+			return &Violation{"process", "c13:process-history-" + asp + ":" + k.kind,
+				fmt.Sprintf("%s %q (env %s/%s, engine %+v): the fault-free evaluation on a fresh engine gives another %s in THIS process than in a fresh process (the outcome depends on what the process evaluated before)\n fresh process: %s\n this process : %s",
+					k.kind, k.src, k.cenv, k.ienv, k.spec, asp, fo, a)}
+		}
+	}
+	return nil
+}
+
+func pristine13Main(args []string) {
+	fs := flag.NewFlagSet("pristine13", flag.ExitOnError)
+	outPath := fs.String("out", "", "")
+	fs.Parse(args)
+	var in []pkeyJSON
+	if err := json.NewDecoder(os.Stdin).Decode(&in); err != nil {
+		harnessFatal("pristine13: %v", err)
+	}
+	gcPolicy(drivers["C13"])
+	startWatchdog()
+	cap := captureStdout(stdoutPath(7000+os.Getpid()%1000, 0))
+	defer cap.restore()
+	x := &evalCtx{cap: cap, rec: &recorder{}}
+	nameClass("")
+	out := make([]obsJSON, len(in))
+	for i, k := range in {
+		o := x.pristine(pkey{k.Kind, k.Spec, k.Src, k.CEnv, k.IEnv})
+		out[i] = obsJSON{o.Class, o.Value, o.Text, o.Calls, o.Stdout, o.Debug, o.Law}
+		tick()
+	}
+	b, _ := json.Marshal(out)
+	if err := os.WriteFile(*outPath, b, 0o644); err != nil {
+		harnessFatal("pristine13: %v", err)
+	}
 }
